@@ -158,3 +158,38 @@ From RS Require Import StartStageStmts StartStageFacts.
 Theorem C06_start_stage_returns : stmt_start_stage_returns.
 Proof. exact start_stage_returns. Qed.
 Print Assumptions C06_start_stage_returns.
+
+(** 64-BIT ARITHMETIC OF THE FLOW NETWORK (FlowGuard.v; known finding F2).  The guard is Panic exactly when one of the code's
+    checked operations fails; it does NOT pass for every valid instance (kernel-evaluated witness: cost rate 10^13 per
+    second on a three-trip instance; spawning cost x depot capacity > 2^63 - 1); it passes under an explicit magnitude
+    condition.  The first formulation of that condition was itself false in three corners (a factor that is zero hides
+    another factor's overflow): refuted with witnesses, and the corrected statements proved. *)
+From RS Require Import FlowGuard FlowGuardStmts FlowGuardFacts.
+Theorem C06_i64_guard_fails_on_a_valid_instance : ~ stmt_cost_guard_total.
+Proof. exact cost_guard_total_refuted. Qed.
+Print Assumptions C06_i64_guard_fails_on_a_valid_instance.
+Theorem C06_i64_guard_meaning : stmt_cost_guard_meaning.
+Proof. exact cost_guard_meaning. Qed.
+Print Assumptions C06_i64_guard_meaning.
+Theorem C06_i64_guard_passes_within_magnitudes : stmt_cost_guard_passes_bounded_fixed.
+Proof. exact cost_guard_passes_bounded_fixed. Qed.
+Print Assumptions C06_i64_guard_passes_within_magnitudes.
+Theorem C06_i64_guard_passes_within_magnitudes_pos : stmt_cost_guard_passes_bounded_pos.
+Proof. exact cost_guard_passes_bounded_pos. Qed.
+Print Assumptions C06_i64_guard_passes_within_magnitudes_pos.
+Theorem C06_first_magnitude_condition_refuted : ~ stmt_cost_guard_passes_bounded.
+Proof. exact cost_guard_passes_bounded_refuted. Qed.
+Print Assumptions C06_first_magnitude_condition_refuted.
+
+(** THE FLOW DECOMPOSITION NEVER PANICS (Decode.v, the loop "building schedule" of solve_for_vehicle_type with the graph's
+    in-edge order as an oracle, recorded by the hook and replayed exactly on every run): for every loaded network, admissible
+    slot allotment, FEASIBLE flow of the type's network and EVERY order of the entering flow units, the
+    `expect("pred not found")`, `pop().unwrap()` and the tour index never fail — by flow conservation and because a
+    predecessor is visited strictly before its successors.  Without conservation the loop does panic (witness). *)
+From RS Require Import Decode DecodeStmts DecodeFacts.
+Theorem C06_flow_decomposition_never_panics : stmt_decode_total.
+Proof. exact decode_total. Qed.
+Print Assumptions C06_flow_decomposition_never_panics.
+Theorem C06_flow_decomposition_needs_conservation : stmt_decode_needs_conservation.
+Proof. exact decode_needs_conservation. Qed.
+Print Assumptions C06_flow_decomposition_needs_conservation.
